@@ -7,7 +7,7 @@ from vlib import gen
 ID = "C01"
 RULE = ("structured random (dtype x ndim 1-3 x shape x boundary-dense values x SE class x 7 layouts of the image x "
         "3 layouts of the element); thorough adds all boolean images <=3x4 x all 512 3x3 elements x {erode,dilate} x {C,F}. "
-        "A case is non-trivial when the result is not constant or the element has >=2 members; distinct = distinct case dicts")
+        "A case is non-trivial when the result is not constant or the element has >=2 members; distinct = distinct case dicts Added families: sparse elements up to 9x11 on images of 1-4 pixels per side; the default element (Bc=None) and the integer codes after another public call (extrema, label, open, cwatershed) in the same process; boolean 2-D views with contiguous rows (colcrop / rowskip / offset layouts).")
 NOT_PROVED = ["the 2-D boolean fast path is a second executable model (Model/MorphFast.v) PROVED equal to the generic path "
               "(fast_path_is_generic); both models are hand-written from _morph.cpp and tied to the compiled code by the "
               "correspondence check (all layouts, row views); the offsets-table iterator is modelled by its logical positions"]
